@@ -35,6 +35,7 @@ REQUIRED_OBS = ["heartbeats_compared", "timeout_resets_predicted_and_seen",
                 "never_answered_from_start", "all_answered_no_reset", "custom_configs",
                 "reset_after_previous_reset", "after_init_shutdown_cycle",
                 "ticks_while_link_down", "heartbeats_after_a_skipped_tick", "chatter_frames",
+                "initialised_after_init_gave_up",
                 "tick_with_full_queue"]
 BUDGET = {"quick": 100, "thorough": 1500}
 
@@ -139,6 +140,9 @@ def cases(tier, seed):
             # extended ids) while it does not answer heartbeats: only a console-version
             # response counts
             yield {"gen": gen, "mode": "api", "pattern": pat, "chatter": True}
+            # initialised only after init() had given up (slow console)
+            yield {"gen": gen, "mode": "api", "pattern": pat, "late_init": 1.0}
+            yield {"gen": gen, "mode": "api", "pattern": pat, "late_init": 0.875, "cycle": True}
     # link outages that have nothing to do with the heartbeat (peer closes, the reconnect
     # takes `dur`), placed around heartbeat ticks; optionally 10 commands are queued while down
     shapes = [("tick_in_short_outage", -0.37, 1.0, 0), ("tick_in_long_outage", -0.37, 5.0, 0),
@@ -275,17 +279,21 @@ def run_api(case):
 
     def answer(n, t):
         if n == 1:
-            return 0.0  # the handshake's version request
+            # the handshake's version request (as slow as the other steps of a slow console)
+            return case.get("late_init", 0.0) if late[0] else 0.0
         i = n - 2
         return pattern[i] if i < len(pattern) else 0.0
 
     base_n = [0]
+    late = [bool(case.get("late_init")) and not case.get("cycle")]
 
     def answer2(n, t):
         return answer(n - base_n[0], t)
 
     async def main(loop, net, log):
         w = AW.ApiWorld(gen, loop, net, log, knobs=C.Knobs(answer_heartbeat=answer2))
+        if case.get("late_init") and not case.get("cycle"):
+            w.console.knobs.latency = case["late_init"]
         if case.get("vary_version"):
             # every answer carries a different version / update flag (also a state change
             # for the API's own version handling)
@@ -304,10 +312,27 @@ def run_api(case):
             await w.at.shutdown()
             await asyncio.sleep(77.25)
             base_n[0] = w.console.heartbeats
+            if case.get("late_init"):
+                w.console.knobs.latency = case["late_init"]
+                late[0] = True
+        t_init = loop.time()
         ok = await w.init()
+        if case.get("late_init"):
+            # the console answers each of the six steps after `late_init` seconds: init()
+            # gives up after 5 s (False), the handshake completes in the background and the
+            # client turns initialised at t_init + 6 x late_init: monitoring starts then
+            out["init_ret"] = ok
+            await asyncio.sleep(t_init + 6 * case["late_init"] - 1e-3 - loop.time())
+            late_mark = log.mark()
+            await asyncio.sleep(t_init + 6 * case["late_init"] - loop.time())
+            await quiesce(loop)
+            ok = (ok is False) and w.at.initialised
+            w.console.knobs.latency = 0.0
+            late[0] = False
+            obs["initialised_after_init_gave_up"] = 1 if ok else 0
         out["ok"] = ok
         out["T0"] = loop.time()
-        out["m0"] = log.mark()
+        out["m0"] = late_mark if case.get("late_init") else log.mark()
         chat = None
         if case.get("chatter"):
             async def chatter():
